@@ -58,14 +58,14 @@ TABLE = {
             "in non-test, non-configuration code must receive exactly TICK_TIME. This decides provenance for all programs "
             "and schedules - a type checker cannot (int is assignable to float) and tests only see a few tags.",
             "Seed assumption: Engine.tick is called with the engine clock time of the tick. Wall-clock stamping sites "
-            "that need an API change to repair are open known findings. User UOD code is out of scope. A time argument carried in a generator local/parameter across a yield is stale and is reported. (R16d, four known findings) every write of a reported tag field is accompanied by a stamp."),
+            "that need an API change to repair are open known findings. User UOD code is out of scope. A time argument carried in a generator local/parameter across a yield is stale and is reported. (R16d, four known findings) every write of a reported tag field is accompanied by a stamp. (R16b) the report builder writes no times (known finding: to_model_tag)."),
     "C19": ("check-then-use contradiction rule + must-report rule on CFGs of all analyzer visitors",
             "For every branch on <collection>.has(name) the missing edge is followed on the CFG: it may never reach "
             "get()/[] of the same name (which raises) and must pass an ERROR AnalyzerItem before the exit; lookups need a "
             "dominating blank-name guard; AnalyzerItem calls never pass both length and end; lint has a catch-all. "
             "Covers every method text and tag/command set because the rule is about all paths of the visitors.",
             "Decides the lookup/report discipline of analyzer.py; exceptions raised inside pint or by validators of "
-            "UOD-defined commands are outside; one justified site is listed in the rule with its reason. Module-level helpers of the analyzer modules are audited like methods (R19f). A justified lookup site is bound to the sources of its key (every definition of the key local is one the recorded reason covers)."),
+            "UOD-defined commands are outside; one justified site is listed in the rule with its reason. Module-level helpers of the analyzer modules are audited like methods (R19f). A justified lookup site is bound to the sources of its key (every definition of the key local is one the recorded reason covers). (R19g) escape audit of every analyzer method; (R19h) the merged command/tag definitions go into a duplicate-tolerant collection."),
     "C23": ("finite abstract interpretation: 5-state recovery machine extracted from the source vs. the documented table",
             "ErrorRecoveryDecorator's methods are interpreted over the domain {self.state} x {Connection Status written} "
             "with hardware outcomes and time comparisons nondeterministic; the extracted transition edges must equal the "
@@ -90,7 +90,7 @@ TABLE = {
             "is checked link by link (registration, draining before clearing, de-duplication by name, latest value read "
             "at collection time, snapshot covers _iter_all_tags).",
             "Decides structure; the interleaving between the engine thread and the reporter thread is outside; tags "
-            "defined in user UOD modules are outside. (R36d) every dequeued tag update reaches the report."),
+            "defined in user UOD modules are outside. (R36d) every dequeued tag update reaches the report. (R36e) nothing changes a tag after the tick's last collection; (R36f) a conversion error of one tag cannot drop the others."),
     "C32": ("route x sink coverage: dominance of every unit/run data access by a verified role-check helper, call-graph reach for the LSP plugin",
             "All 41 routes of the included routers are enumerated from the decorators; every call that reads or commands "
             "unit/run data (directly, through callees, or through the pylsp hook functions for the LSP websocket) must be "
@@ -126,7 +126,7 @@ TABLE = {
             "Scheduling model read off CommandManager (newest request first, one generator step per tick, commands orphaned "
             "by _stop_interpreter); calls outside the domain have only the tabulated effects (evidence.call_model); timed waits "
             "are nondeterministic. set_error_state from a stopped engine breaks the invariant but is outside the property's "
-            "quantifier (recorded by the thorough tier as observation). The execution order of the commands due in one tick (newest first / appended / stable sort by a name predicate) is extracted from CommandManager.execute_commands, not assumed; an unrecognised reordering exits 2. Gating written as a module-level lookup table keyed by command is evaluated as well; (R06d) the invariant is also explored with two user requests per tick gap. Bound: union of the coarse scheduler with one request per tick gap and the exact scheduler of execute_commands with two (quick) / three (thorough) requests per gap."),
+            "quantifier (recorded by the thorough tier as observation). The execution order of the commands due in one tick (newest first / appended / stable sort by a name predicate) is extracted from CommandManager.execute_commands, not assumed; an unrecognised reordering exits 2. Gating written as a module-level lookup table keyed by command is evaluated as well; (R06d) the invariant is also explored with two user requests per tick gap. Bound: union of the coarse scheduler with one request per tick gap and the exact scheduler of execute_commands with two (quick) / three (thorough) requests per gap. (R06a strict) a Restart that has begun keeps System State Restarting; (R06e) with faults explored, no run => Stopped and no pause/hold flag."),
     "C07": ("abstract interpretation of update_calculated_tags over System State + sibling rule and model check for the Block/Scope Time gate + run-start sibling agreement",
             "Which System States let Process/Run Time advance is computed by interpreting update_calculated_tags for every "
             "state; the Block/Scope Time gate table is extracted from tags_impl and every site that leaves Running must emit a "
@@ -139,7 +139,7 @@ TABLE = {
             "safe state; Engine.tick evaluated with paused=True must not reach UOD command execution; hardware writes in engine "
             "code must be guarded by _runstate_started.",
             "What UOD callbacks compute is not modelled (any executing UOD command may write any output). Three design-level "
-            "violations are open known findings (dead start-up write, error pause without safe state, UOD commands run while paused). Bound: union of the coarse scheduler with one request per tick gap and the exact scheduler of execute_commands with two (quick) / three (thorough) requests per gap."),
+            "violations are open known findings (dead start-up write, error pause without safe state, UOD commands run while paused). Bound: union of the coarse scheduler with one request per tick gap and the exact scheduler of execute_commands with two (quick) / three (thorough) requests per gap. (R08b) Stop's safe write, succeeding and failing (the latter a known finding); (R08e) unsafe no-run/paused states classified by cause; (R08g) no tick takes the hardware from safe-and-paused to live while a Stop/Restart is in progress."),
     "C09": ("captured-state kill rule (structural, per generator segment) + model check of restores on the extracted run-state machine",
             "Every function that ends a pause or crosses a run boundary must clear or consume Engine._prev_state within the "
             "same generator segment; Pause must not capture over an outstanding capture; writers of _prev_state are "
@@ -288,7 +288,7 @@ TABLE = {
             "every run-time tag lookup by a method-supplied name has an analyzer test, the tag collections agree, and compound "
             "percentage units are commensurable.",
             "Decides the agreements listed; pint arithmetic beyond the stated grammar fact, uod-specific parse functions and macro "
-            "errors are not decided. Base (static unit list vs uod-registered units) and 'mol%' are open known findings. The match mode of parse/validate is read through compiled patterns and helper delegation (opstatic/matchsite.py)."),
+            "errors are not decided. Base (static unit list vs uod-registered units) and 'mol%' are open known findings. The match mode of parse/validate is read through compiled patterns and helper delegation (opstatic/matchsite.py). (R20f) values handed to the Decimal unit registry are Decimals by construction."),
     "C22": ("partial evaluation of the pattern builders + regex-AST automata: language equivalence against the documented language",
             "RegexNumber / RegexCategorical are evaluated symbolically (placeholder symbols for unit / option lists), the resulting "
             "templates are compiled to automata and compared with the documented language for all instantiation shapes "
